@@ -45,6 +45,12 @@ def c02(R):
             ok = pol.shape == (N, 2) and all(0 <= pol[i, 0] < A and pol[i, 1] == pol[i, 0] % 2 and abs(Qm[i, int(pol[i, 0])] - Qm[i].max()) <= 1e-9 * max(1, abs(Qm[i].max())) for i in range(N))
             if not ok: R.fail("c02.policy_greedy", "extracted policy is not an action vector attaining the maximum", inp, pol, Qm.argmax(1))
             if not close(np.asarray(s.__class__(prob, gamma=g, verbose=0, max_batch_size=bs).values), v0): R.fail("c08.initial_values", "initial values != initial_value(state)", inp)
+    # a problem with more than 256 (and more than 2**16 is out of reach) actions: index arithmetic must not be narrowed
+    N, A, E = 3, 300, 1; ns = rng.integers(0, N, (N, A, E)); r = rng.normal(0, 3, (N, A, E)).round(2); r[:, 280:, :] += 50.0; p = np.ones((N, A, E))
+    prob = Tab(ns, r, p); s = VI(prob, gamma=0.9, epsilon=1e-6, verbose=0, max_batch_size=2); V = rng.normal(0, 4, N); s.values = jnp.array(V); pol = np.asarray(s._extract_policy()); Qm = Qf(ns, r, p, 0.9, V)
+    inp = desc(N, A, E, gamma=0.9, note="300 actions, the best ones have index >= 280", V=V); R.case((N, A, E, "many_actions"), inp)
+    if not all(0 <= pol[i, 0] < A and abs(Qm[i, int(pol[i, 0])] - Qm[i].max()) <= 1e-9 * max(1, abs(Qm[i].max())) for i in range(N)):
+        R.fail("c02.policy_greedy", "extracted policy is not an action vector attaining the maximum (more than 256 actions)", inp, pol[:, 0], Qm.argmax(1))
     return R
 
 # ----------------------------------------------------------------------------------------------------------------- C08
